@@ -12,6 +12,17 @@ from ..gram.g4 import Ref, Seq, Alt, Rep
 from .index import u
 
 
+def postorder(e):
+    out = []
+
+    def rec(n):
+        for c in ast.iter_child_nodes(n):
+            rec(c)
+        out.append(n)
+    rec(e)
+    return out
+
+
 class Summ:
     def __init__(self):
         self.use_first = {}     # table -> witness text
@@ -80,8 +91,9 @@ class TS:
         foreign = set()
 
         def visit_expr(e, cleared):
-            nodes = [n for n in ast.walk(e) if isinstance(n, (ast.Name, ast.Call, ast.Attribute))]
-            nodes.sort(key=lambda n: (n.end_lineno, n.end_col_offset, -(n.lineno * 10000 + n.col_offset)))
+            # evaluation order = post-order of the expression tree (operands before the operation, left to right); positions in the
+            # source are not used because inlined / substituted sub-expressions keep the positions of where they came from
+            nodes = [n for n in postorder(e) if isinstance(n, (ast.Name, ast.Call, ast.Attribute))]
             skip = set()
             for n in nodes:
                 if isinstance(n, ast.Call) and isinstance(n.func, ast.Attribute) and n.func.attr == "clear" and not n.args:
